@@ -8,7 +8,7 @@ T_STUBS = ['stubs/pages_stubs.c: assumed contracts of parquet_parse_page_header 
 LEAK = ['--bounds-check', '--pointer-check', '--div-by-zero-check', '--signed-overflow-check',
         '--undefined-shift-check', '--memory-leak-check']
 # C14 logic jobs: offsets/sizes arithmetic (signed overflow on attacker-controlled offsets) belongs to the C04 jobs
-LOGIC = ['--no-signed-overflow-check', '--memory-leak-check']   # CBMC 6: the other standard checks are on by default
+LOGIC = ['--memory-leak-check']   # CBMC 6: the other standard checks are on by default
 MF = ['--malloc-may-fail', '--malloc-fail-null']
 
 C14R = dict(prop='C14', harness='harness/C14/pages.c', extra_sources=[], checks=LOGIC, cbmc_flags=MF,
@@ -35,15 +35,15 @@ FZ_MMAP = dict(kind='fuzz', harness='replay/fz/pages_mmap.c', sources=ALL_SRC, m
 C04R = dict(prop='C04', est_s=20, harness='harness/C04/pages.c', extra_sources=[], checks=['--memory-leak-check'],
             cbmc_flags=MF, trusted=T_STUBS, wip=True, **PR)
 JOBS += [
-    dict(name='c04_load_dictionary_page_mmap', replayer=FZ_MMAP, note='FINDING (genuine, native demo /tmp/pagesites/native/demo.c modes 1-5, fuzz replay reproduces): mmap load paths never compare dictionary_page_offset / data_start_offset+current_page / the 256-byte header window / compressed_page_size / num_values with file_size; negative num_values reaches memset(NULL, 0, huge); unchecked malloc results in the zero-copy path; signed overflow on attacker-controlled offsets', entry='h_c04_dict_mmap', functions=['load_dictionary_page_mmap', 'decompress_page'], **C04R),
-    dict(name='c04_load_dictionary_page_fread', note='FINDING (minor): signed overflow (UB) in offset arithmetic on attacker-controlled int64 offsets (dictionary_page_offset + header_size + compressed_page_size, data_offset + current_page); all buffer accesses on the fread paths are discharged', entry='h_c04_dict_fread', functions=['load_dictionary_page_fread', 'decompress_page'], **C04R),
+    dict(name='c04_load_dictionary_page_mmap', replayer=FZ_MMAP, note='passes since /repo c6e3bde (page_window / page_sizes_ok); validated with c6e3bde reverted (fails) and targeted breakages', entry='h_c04_dict_mmap', functions=['load_dictionary_page_mmap', 'decompress_page'], wip_override=False, **C04R),
+    dict(name='c04_load_dictionary_page_fread', note='passes since /repo c6e3bde (page_window / page_sizes_ok); validated with c6e3bde reverted (fails) and targeted breakages', entry='h_c04_dict_fread', functions=['load_dictionary_page_fread', 'decompress_page'], wip_override=False, **C04R),
     # case split over the column type: every type value except FIXED_LEN_BYTE_ARRAY (proof), FLBA with a fixed length (bounded)
-    dict(name='c04_load_next_page_mmap', replayer=FZ_MMAP, note='FINDING (genuine, native demo /tmp/pagesites/native/demo.c modes 1-5, fuzz replay reproduces): mmap load paths never compare dictionary_page_offset / data_start_offset+current_page / the 256-byte header window / compressed_page_size / num_values with file_size; negative num_values reaches memset(NULL, 0, huge); unchecked malloc results in the zero-copy path; signed overflow on attacker-controlled offsets', entry='h_c04_page_mmap', defines=['PG_NOT_FLBA=1', 'PG_MEM_NOCONTENT=1'], functions=['load_next_page_mmap', 'load_dictionary_page_mmap', 'decompress_page'], **C04R),
-    dict(name='c04_load_next_page_fread', note='FINDING (minor): signed overflow (UB) in offset arithmetic on attacker-controlled int64 offsets (dictionary_page_offset + header_size + compressed_page_size, data_offset + current_page); all buffer accesses on the fread paths are discharged', entry='h_c04_page_fread', defines=['PG_NOT_FLBA=1', 'PG_MEM_NOCONTENT=1'], functions=['load_next_page_fread', 'load_dictionary_page_fread', 'decompress_page'], **C04R),
-    dict(name='c04_load_next_page_mmap_flba16', replayer=FZ_MMAP, note='FINDING (genuine, native demo /tmp/pagesites/native/demo.c modes 1-5, fuzz replay reproduces): mmap load paths never compare dictionary_page_offset / data_start_offset+current_page / the 256-byte header window / compressed_page_size / num_values with file_size; negative num_values reaches memset(NULL, 0, huge); unchecked malloc results in the zero-copy path; signed overflow on attacker-controlled offsets', entry='h_c04_page_mmap', defines=['PG_FLBA=16', 'PG_MEM_NOCONTENT=1'], level='bounded', bound='FIXED_LEN_BYTE_ARRAY columns with type_length == 16',
+    dict(name='c04_load_next_page_mmap', replayer=FZ_MMAP, note='RESIDUAL FINDING F6 (minor, genuine, reproduced by the fuzz replayer under UBSan): zero-copy path with num_values == 0 on a reader without level buffers calls memset(NULL, 0, 0) (page_reader.c:938/939), UB per C11 7.24.1p2; every other obligation passes since c6e3bde. Proposed fix: guard the two memsets with if (num_values > 0)', entry='h_c04_page_mmap', defines=['PG_NOT_FLBA=1', 'PG_MEM_NOCONTENT=1'], functions=['load_next_page_mmap', 'load_dictionary_page_mmap', 'decompress_page'], **C04R),
+    dict(name='c04_load_next_page_fread', note='passes since /repo c6e3bde (page_window / page_sizes_ok); validated with c6e3bde reverted (fails) and targeted breakages', entry='h_c04_page_fread', defines=['PG_NOT_FLBA=1', 'PG_MEM_NOCONTENT=1'], functions=['load_next_page_fread', 'load_dictionary_page_fread', 'decompress_page'], wip_override=False, **C04R),
+    dict(name='c04_load_next_page_mmap_flba16', replayer=FZ_MMAP, note='RESIDUAL FINDING F6 (minor, genuine, reproduced by the fuzz replayer under UBSan): zero-copy path with num_values == 0 on a reader without level buffers calls memset(NULL, 0, 0) (page_reader.c:938/939), UB per C11 7.24.1p2; every other obligation passes since c6e3bde. Proposed fix: guard the two memsets with if (num_values > 0)', entry='h_c04_page_mmap', defines=['PG_FLBA=16', 'PG_MEM_NOCONTENT=1'], level='bounded', bound='FIXED_LEN_BYTE_ARRAY columns with type_length == 16',
          functions=['load_next_page_mmap', 'load_dictionary_page_mmap', 'decompress_page'], **C04R),
-    dict(name='c04_load_next_page_fread_flba16', note='FINDING (minor): signed overflow (UB) in offset arithmetic on attacker-controlled int64 offsets (dictionary_page_offset + header_size + compressed_page_size, data_offset + current_page); all buffer accesses on the fread paths are discharged', entry='h_c04_page_fread', defines=['PG_FLBA=16', 'PG_MEM_NOCONTENT=1'], level='bounded', bound='FIXED_LEN_BYTE_ARRAY columns with type_length == 16',
-         functions=['load_next_page_fread', 'load_dictionary_page_fread', 'decompress_page'], **C04R),
+    dict(name='c04_load_next_page_fread_flba16', note='passes since /repo c6e3bde (page_window / page_sizes_ok); validated with c6e3bde reverted (fails) and targeted breakages', entry='h_c04_page_fread', defines=['PG_FLBA=16', 'PG_MEM_NOCONTENT=1'], level='bounded', bound='FIXED_LEN_BYTE_ARRAY columns with type_length == 16',
+         functions=['load_next_page_fread', 'load_dictionary_page_fread', 'decompress_page'], wip_override=False, **C04R),
 ]
 
 PW = dict(overlays=['contracts/page_writer.ovl'], harness='harness/C09/page_writer.c', includes=['src'], loop_contracts=False,
@@ -55,10 +55,29 @@ JOBS += [
     dict(name='c14_page_writer_finalize', prop='C14', entry='h_c14_finalize', functions=['carquet_page_writer_finalize', 'compress_data'], **PW),
 ]
 
-# page decoders under their own contracts (callees = assumed contracts in stubs/pages_stubs.c)
+# page decoders: harness-is-contract + loop contracts (enforce-contract's assigns instrumentation exhausts memory here)
+RD = dict(prop='C04', harness='harness/C04/pages.c', entry='h_c04_read_dictionary_page', overlays=['contracts/page_reader.ovl'],
+          includes=['src'], loop_contracts=True, min_loop_obligations=1, extra_sources=[], cbmc_flags=MF,
+          checks=['--memory-leak-check'], trusted=T_STUBS[:1], functions=['carquet_read_dictionary_page'], wip=True)
 JOBS += [
-    dict(name='c04_read_dictionary_page', prop='C04', harness='harness/C04/pages.c', entry='h_c04_read_dictionary_page',
-         overlays=['contracts/page_reader.ovl'], includes=['src'], enforce='carquet_read_dictionary_page', min_loop_obligations=1,
-         defines=['PG_MEMCPY_SMALL=1'], extra_sources=[], cbmc_flags=MF, trusted=T_STUBS[:1], wip=True, tier='thorough',
-         note='UNDECIDED: SAT back end runs out of memory (8 GB) after enforce-contract instrumentation; cause not isolated (not the loop, not havoc_slice, not is_fresh). The expected defect (memcpy of value_size*num_values bytes unchecked against page_size) is shown natively: /tmp/pagesites/native/demo.c mode 6'),
+    dict(name='c04_read_dictionary_page', defines=['PG_MEMCPY_SMALL=1', 'PG_NOT_FLBA=1'], **RD),
+    dict(name='c04_read_dictionary_page_flba16', defines=['PG_MEMCPY_SMALL=1', 'PG_FLBA=16'], level='bounded',
+         bound='FIXED_LEN_BYTE_ARRAY columns with type_length == 16', **RD),
+]
+
+for _j in JOBS:
+    if 'wip_override' in _j:
+        _j['wip'] = _j.pop('wip_override')
+
+# C19: allocation failure in the fread page load (every malloc may return NULL; CBMC's free() preconditions
+# include the double-free check; leak check after releasing what the reader owns)
+JOBS += [
+    dict(name='c19_load_next_page_fread', entry='h_c04_page_fread', defines=['PG_NOT_FLBA=1', 'PG_MEM_NOCONTENT=1'],
+         functions=['load_next_page_fread', 'load_dictionary_page_fread', 'decompress_page'],
+         note='validated: OOM cleanup simplified to free(page_data); free(compressed); is caught (free of an already released block)',
+         **dict(C04R, prop='C19', wip=False)),
+    dict(name='c19_load_next_page_mmap', entry='h_c04_page_mmap', defines=['PG_NOT_FLBA=1', 'PG_MEM_NOCONTENT=1'],
+         functions=['load_next_page_mmap', 'load_dictionary_page_mmap', 'decompress_page'],
+         note='shares residual finding F6 with c04_load_next_page_mmap (memset(NULL, 0, 0))',
+         **dict(C04R, prop='C19', wip=True)),
 ]
